@@ -1,6 +1,6 @@
 //! C07: compilation is deterministic.
 //!
-//! request : C07.repeat \t <dx|vk|vkba|msl> \t <all|nopipeline> \t <gen:<seed> | clash:<seed> | disk:<root>|<entry>
+//! request : C07.repeat \t <dx|vk|vkba|msl> \t <all|nopipeline> \t <gen:<seed> | clash:<seed> | share:<seed> | inline:<seed> | disk:<root>|<entry>
 //!                                                                  | diag:<family>:<seed> | src:<hex of the source>>
 //! observe : digest of sources + stages + metadata + pipeline state, or of the fully rendered diagnostic
 //!           (message, file, line, column, source excerpt, notes) followed by `|<stage>/<error variant>`
@@ -33,6 +33,12 @@ fn source_of(id: &str) -> Option<Input> {
     } else if let Some(seed) = id.strip_prefix("clash:") {
         let seed: u64 = seed.parse().ok()?;
         Some(mem(clash_program(&mut Rng::new(seed))))
+    } else if let Some(seed) = id.strip_prefix("inline:") {
+        let seed: u64 = seed.parse().ok()?;
+        Some(mem(inline_program(&mut Rng::new(seed))))
+    } else if let Some(seed) = id.strip_prefix("share:") {
+        let seed: u64 = seed.parse().ok()?;
+        Some(mem(share_program(&mut Rng::new(seed))))
     } else if let Some(rest) = id.strip_prefix("disk:") {
         let (root, entry) = rest.split_once('|')?;
         Some(Input { disk: Some((root.to_string(), entry.to_string())), files: Vec::new(), layout: false })
@@ -100,6 +106,124 @@ fn clash_program(rng: &mut Rng) -> String {
     }
     s.push_str("}\nPipeline P\n{\n    ComputeShader = entry;\n}\n");
     s
+}
+
+/// Programs that fix 31dddea made acceptable: in the global scope and in 1-3 namespaces, overloaded functions
+/// that share their name with a struct declared before them (and used as a type before the functions hide it) or
+/// with a struct / enum / cbuffer declared after them.  Every exporter has to give the same-named symbols of one
+/// scope different names, so the generated suffixes must not follow the order of a hash container.
+fn share_program(rng: &mut Rng) -> String {
+    let bases = ["Item", "pick", "main", "Light", "Widget", "vertex", "kernel", "Data", "constant", "helper"];
+    let nns = rng.range(1, 3) as usize;
+    let mut s = String::from("static int s_total = 0;\n");
+    let mut calls: Vec<String> = Vec::new();
+    let scopes: Vec<Option<String>> = std::iter::once(None).chain((0..nns).map(|k| Some(format!("ns{}", k)))).collect();
+    for scope in &scopes {
+        if let Some(ns) = scope {
+            s.push_str(&format!("namespace {}\n{{\n", ns));
+        }
+        let q = match scope { Some(ns) => format!("{}::", ns), None => String::new() };
+        let tag = match scope { Some(ns) => ns.clone(), None => "g".to_string() };
+        let nbases = rng.range(1, 3) as usize;
+        let mut chosen: Vec<&str> = Vec::new();
+        while chosen.len() < nbases {
+            let b = *rng.pick(&bases);
+            if !chosen.contains(&b) {
+                chosen.push(b);
+            }
+        }
+        for b in &chosen {
+            let before = rng.chance(1, 3);
+            if before {
+                // the type is declared and used first; the functions hide it afterwards
+                s.push_str(&format!("struct {}\n{{\n    float value;\n}};\nfloat read_{}_{}({} p)\n{{\n    return p.value;\n}}\nstatic {} held_{}_{};\n", b, tag, b, b, b, tag, b));
+                calls.push(format!("    {}read_{}_{}({}held_{}_{});\n", q, tag, b, q, tag, b));
+            }
+            let overloads = rng.range(1, 3);
+            let tys = ["int", "float", "uint"];
+            for o in 0..overloads {
+                let ty = tys[o as usize];
+                s.push_str(&format!("{} {}({} x)\n{{\n    s_total = s_total + 1;\n    return x;\n}}\n", ty, b, ty));
+                let arg = match ty { "int" => "(int)1", "float" => "1.0f", _ => "1u" };
+                calls.push(format!("    {}{}({});\n", q, b, arg));
+            }
+            if !before {
+                match rng.below(3) {
+                    0 => s.push_str(&format!("struct {}\n{{\n    float value;\n}};\n", b)),
+                    1 => {
+                        s.push_str(&format!("enum {}\n{{\n    {}_{}_First,\n    {}_{}_Second\n}};\n", b, tag, b, tag, b));
+                        calls.push(format!("    s_total = s_total + (int){}{}_{}_Second;\n", q, tag, b));
+                    }
+                    _ => {
+                        s.push_str(&format!("cbuffer {}\n{{\n    float4 member_{}_{};\n}};\n", b, tag, b));
+                        calls.push(format!("    s_total = s_total + (int){}member_{}_{}.x;\n", q, tag, b));
+                    }
+                }
+            }
+        }
+        if scope.is_some() {
+            s.push_str("}\n");
+        }
+    }
+    s.push_str("[numthreads(1, 1, 1)]\nvoid entry()\n{\n");
+    for c in &calls {
+        s.push_str(c);
+    }
+    s.push_str("}\nPipeline P\n{\n    ComputeShader = entry;\n}\n");
+    s
+}
+
+/// Programs for the one hash walk of the binding allocator (`assign_api_bindings`: `for (set, size) in inline_size`,
+/// then `inline_constant_buffers.sort()`): BufferAddress / RWBufferAddress globals in 2-4 bind groups that all hold
+/// the same number of ordinary resources, so the inline descriptor blocks of the groups tie on their api location
+/// and only the set index of the derived `Ord` separates them (seed C07-2 sorts by location alone).
+fn inline_program(rng: &mut Rng) -> String {
+    let groups = rng.range(2, 4) as usize;
+    let ordinary = rng.below(3) as usize;
+    let by_register = rng.chance(1, 2);
+    let mut decls: Vec<String> = Vec::new();
+    let mut uses: Vec<String> = Vec::new();
+    for g in 0..groups {
+        for o in 0..ordinary {
+            let name = format!("g_tex_{}_{}", g, o);
+            if by_register {
+                decls.push(format!("Texture2D<float4> {} : register(t{}, space{});\n", name, o, g));
+            } else {
+                decls.push(format!("[[rssl::bind_group({})]] Texture2D<float4> {};\n", g, name));
+            }
+            uses.push(format!("    {};\n", name));
+        }
+        let addrs = rng.range(1, 2) as usize;
+        for a in 0..addrs {
+            let name = format!("g_addr_{}_{}", g, a);
+            let ty = if rng.chance(1, 3) { "RWBufferAddress" } else { "BufferAddress" };
+            if by_register {
+                let class = if ty == "BufferAddress" { "t" } else { "u" };
+                decls.push(format!("const {} {} : register({}{}, space{});\n", ty, name, class, ordinary + a, g));
+            } else {
+                decls.push(format!("[[rssl::bind_group({})]] {} {};\n", g, ty, name));
+            }
+            uses.push(format!("    s_sum = s_sum + {}.Load<uint>(0);\n", name));
+        }
+    }
+    shuffle_lines(rng, &mut decls);
+    let mut s = String::from("static uint s_sum = 0;\n");
+    for d in &decls {
+        s.push_str(d);
+    }
+    s.push_str("[numthreads(1, 1, 1)]\nvoid entry()\n{\n");
+    for u in &uses {
+        s.push_str(u);
+    }
+    s.push_str(&format!("}}\nPipeline P\n{{\n    ComputeShader = entry;\n    DefaultBindGroup = {};\n}}\n", groups));
+    s
+}
+
+fn shuffle_lines(rng: &mut Rng, v: &mut [String]) {
+    for i in (1..v.len()).rev() {
+        let j = rng.below(i as u64 + 1) as usize;
+        v.swap(i, j);
+    }
 }
 
 fn stress_opts() -> GenOpts {
@@ -307,6 +431,10 @@ fn run_requests(lines: &[String], out: &mut Out, hist: &mut Hist) {
             "source=generated"
         } else if id.starts_with("clash:") {
             "source=name-clash"
+        } else if id.starts_with("share:") {
+            "source=name-shared-in-scope"
+        } else if id.starts_with("inline:") {
+            "source=inline-descriptor-groups"
         } else if id.starts_with("diag:") {
             "source=diagnostics-generator"
         } else if id.starts_with("src:") {
@@ -328,7 +456,11 @@ fn run_requests(lines: &[String], out: &mut Out, hist: &mut Hist) {
             for (n, f) in &input.files {
                 eprintln!("---- {} [{}]\n{}", n, line, f);
             }
-            eprintln!("==== {}\n{}", o, match &a { CompileOutcome::Err(e) => e.clone(), other => other.digest() });
+            eprintln!("==== {}\n{}", o, match &a {
+                CompileOutcome::Err(e) => e.clone(),
+                CompileOutcome::Ok(ps) => ps.iter().map(|p| format!("{}\nstages: {:?}\nmeta: {}\nstate: {}", String::from_utf8_lossy(&p.data), p.stages, p.metadata, p.state)).collect::<Vec<_>>().join("\n-- next pipeline --\n"),
+                other => other.digest(),
+            });
         }
         first.push(d0);
         shows.push(show(&a));
@@ -425,6 +557,20 @@ pub fn run(args: &Args, out: &mut Out) {
                     lines.push(format!("C07.repeat\t{}\tall\tdiag:{}:{}", t.name(), family, seed));
                 }
             }
+        }
+    }
+    // functions sharing their name with a struct / enum / cbuffer of the same scope (accepted since fix 31dddea)
+    for _ in 0..n / 2 {
+        let seed = rng.next() >> 16;
+        for t in ALL_TARGETS {
+            lines.push(format!("C07.repeat\t{}\tall\tshare:{}", t.name(), seed));
+        }
+    }
+    // buffer addresses in several bind groups with tied inline descriptor slots (the hash walk of assign_api_bindings)
+    for _ in 0..n / 4 {
+        let seed = rng.next() >> 16;
+        for t in [Tgt::VkBa, Tgt::Vk] {
+            lines.push(format!("C07.repeat\t{}\tall\tinline:{}", t.name(), seed));
         }
     }
     // the repository's own rejected inputs (first argument of check_fail / check_fail_message in the typer tests)
